@@ -403,6 +403,21 @@ func execute(r *core.Run, c *Case) {
 		r.Inconclusive(err.Error())
 		return
 	}
+	if (len(c.Payload)+len(c.Agent))%3 == 0 {
+		// a used object: it has already signed (and read back) another request
+		prior := &signature.SignRequest{Payload: signature.Payload{ContentType: "application/prior", Content: []byte(`{"prior":"request"}`)},
+			Signer: signer, SigningTime: st.Add(-time.Hour), SigningAgent: "prior/agent", SigningScheme: signature.SigningScheme(c.Scheme),
+			ExtendedSignedAttributes: []signature.Attribute{{Key: "io.prior.crit", Critical: true, Value: "p"}, {Key: "io.prior.plain", Value: "q"}}}
+		if remote != nil {
+			prior.Signer = sims.NewRemote(ch)
+		}
+		core.Guard(func() {
+			if _, e := env.Sign(prior); e == nil {
+				env.Content()
+				r.Count("signed-on-a-used-object", 1)
+			}
+		})
+	}
 	var raw []byte
 	if p := core.Guard(func() { raw, err = env.Sign(req) }); p != nil {
 		r.Count("panicked", 1)
